@@ -77,6 +77,7 @@ type prover struct {
 	depth       int
 	bounds      map[string]bool
 	subst       map[ssa.Value]ssa.Value // parameter → actual argument (caller-side discharge)
+	at          ssa.Instruction         // the site the facts are collected for (nil: none in particular)
 	pendingNE   [][2]linExpr
 	idxPending  []ssa.Value
 	inRefresh   bool
@@ -1070,6 +1071,7 @@ func (p *prover) atomFacts(key string, v ssa.Value) {
 	}
 	p.seenV[v] = true
 	e := p.atomLin(key)
+	p.tableRowFact(e, v)
 	if lo, hi := p.interval(v, 0); lo != nil || hi != nil {
 		if lo != nil {
 			p.ge(e, newLin(*lo))
@@ -1409,6 +1411,7 @@ type obligation struct {
 // proveAt builds a prover with every fact available at instruction in.
 func proveAt(fn *ssa.Function, in ssa.Instruction) *prover {
 	p := newProver(fn)
+	p.at = in
 	for _, g := range guardAtoms(fn, nil, in) {
 		p.addGuard(g)
 	}
@@ -1865,4 +1868,248 @@ func (p *prover) condUpdateFact(e linExpr, load *ssa.UnOp) {
 		p.ge(e, p.lin(n))
 		return
 	}
+}
+
+// tableRowFact: v is an integer field of the row a package-level table holds for the key k — `layouts[len(args)].user`
+// — and the table (an array, slice or map with integer keys that only its initialiser assigns) is such that in every
+// row the field stays within a fixed distance of the row's own key: then lo <= v - k <= hi.  This is what makes
+// "argument positions by argument count" tables provable: every row i has positions below i.  For a map the row has to
+// be known to exist at the site (the comma-ok result is tested on the way there), or the zero row would count too.
+func (p *prover) tableRowFact(e linExpr, v ssa.Value) {
+	if !isIntType(v.Type()) || theProgram == nil {
+		return
+	}
+	var elem ssa.Value
+	var st *types.Struct
+	field := -1
+	switch t := v.(type) {
+	case *ssa.Field:
+		elem, field = t.X, t.Field
+		st, _ = t.X.Type().Underlying().(*types.Struct)
+	case *ssa.UnOp:
+		if t.Op != token.MUL {
+			return
+		}
+		fa, ok := t.X.(*ssa.FieldAddr)
+		if !ok {
+			return
+		}
+		elem, field = fa.X, fa.Field
+		if pt, ok := fa.X.Type().Underlying().(*types.Pointer); ok {
+			st, _ = pt.Elem().Underlying().(*types.Struct)
+		}
+	default:
+		return
+	}
+	if st == nil || field < 0 {
+		return
+	}
+	// a local holding the row: stored once
+	if a, ok := elem.(*ssa.Alloc); ok {
+		var only ssa.Value
+		n := 0
+		for _, r := range *a.Referrers() {
+			if s, ok := r.(*ssa.Store); ok && s.Addr == ssa.Value(a) {
+				only = s.Val
+				n++
+			}
+		}
+		if n != 1 {
+			return
+		}
+		elem = only
+	}
+	var g *ssa.Global
+	var k ssa.Value
+	var okFlag ssa.Value // for maps: the comma-ok result that has to be known true
+	globalOf := func(x ssa.Value) *ssa.Global {
+		switch t := x.(type) {
+		case *ssa.UnOp:
+			if t.Op == token.MUL {
+				gg, _ := t.X.(*ssa.Global)
+				return gg
+			}
+		case *ssa.Global:
+			return t
+		}
+		return nil
+	}
+	switch t := elem.(type) {
+	case *ssa.Extract:
+		lk, ok := t.Tuple.(*ssa.Lookup)
+		if !ok || !lk.CommaOk || t.Index != 0 {
+			return
+		}
+		g, k = globalOf(lk.X), lk.Index
+		for _, r := range *lk.Referrers() {
+			if ex, ok := r.(*ssa.Extract); ok && ex.Index == 1 {
+				okFlag = ex
+			}
+		}
+		if okFlag == nil {
+			return
+		}
+	case *ssa.UnOp:
+		if t.Op != token.MUL {
+			return
+		}
+		ia, ok := t.X.(*ssa.IndexAddr)
+		if !ok {
+			return
+		}
+		g, k = globalOf(ia.X), ia.Index
+	case *ssa.IndexAddr:
+		g, k = globalOf(t.X), t.Index
+	default:
+		return
+	}
+	if g == nil || k == nil || g.Pkg == nil || !isModPkg(g.Pkg.Pkg.Path()) || assignedOutsideInit(g) || !isIntType(k.Type()) {
+		return
+	}
+	if okFlag != nil {
+		known := false
+		if p.at != nil {
+			for _, gd := range dominatingGuards(p.fn, nil, p.at) {
+				c, neg := stripNot(gd.Cond)
+				if c == okFlag && gd.Pos != neg {
+					known = true
+				}
+			}
+		}
+		if !known {
+			return
+		}
+	}
+	name := st.Field(field).Name()
+	rows := tableRows(g)
+	if len(rows) == 0 {
+		return
+	}
+	first := true
+	var lo, hi int64
+	for key, row := range rows {
+		f, ok := row[name]
+		if !ok {
+			return
+		}
+		d := f - key
+		if first || d < lo {
+			lo = d
+		}
+		if first || d > hi {
+			hi = d
+		}
+		first = false
+	}
+	kl := p.lin(k)
+	p.ge(e, kl.add(newLin(lo), 1)) // v >= k + lo
+	p.ge(kl.add(newLin(hi), 1), e) // v <= k + hi
+	// and the plain ranges: of the field over the rows, and (for a map whose row is known to exist) of the key
+	first = true
+	var fmin, fmax, kmin, kmax int64
+	for key, row := range rows {
+		f := row[name]
+		if first || f < fmin {
+			fmin = f
+		}
+		if first || f > fmax {
+			fmax = f
+		}
+		if first || key < kmin {
+			kmin = key
+		}
+		if first || key > kmax {
+			kmax = key
+		}
+		first = false
+	}
+	p.ge(e, newLin(fmin))
+	p.ge(newLin(fmax), e)
+	if okFlag != nil {
+		p.ge(kl, newLin(kmin))
+		p.ge(newLin(kmax), kl)
+	}
+}
+
+var tableRowsMemo = map[*ssa.Global]map[int64]map[string]int64{}
+
+// tableRows: the integer fields of every row of an init-only package-level table, by integer key (map key or index).
+func tableRows(g *ssa.Global) map[int64]map[string]int64 {
+	if r, ok := tableRowsMemo[g]; ok {
+		return r
+	}
+	tableRowsMemo[g] = nil
+	out := map[int64]map[string]int64{}
+	rel := strings.TrimPrefix(strings.TrimPrefix(g.Pkg.Pkg.Path(), modPath), "/")
+	if val, und := evalGlobal(theProgram, rel, g.Name()); und == "" && val != nil {
+		switch t := val.(type) {
+		case amap:
+			for ks, v := range t.m.vals {
+				var key int64
+				if _, err := fmt.Sscanf(ks, "i:%d", &key); err != nil {
+					return nil
+				}
+				row := map[string]int64{}
+				if sv, ok := v.(astruct); ok {
+					for fn, fv := range sv.f {
+						if n, ok := fv.(aint); ok {
+							row[fn] = int64(n)
+						}
+					}
+				}
+				out[key] = row
+			}
+		case avals:
+			for i, c := range t.cells {
+				row := map[string]int64{}
+				for fn, fv := range c.f {
+					if n, ok := fv.(aint); ok {
+						row[fn] = int64(n)
+					}
+				}
+				out[int64(i)] = row
+			}
+		}
+	}
+	if len(out) == 0 {
+		// an array literal is filled in element by element
+		if o := (&absEnv{globals: map[string]*aobj{}}).globalInit(g); o != nil {
+			for path, fv := range o.f {
+				var i int64
+				var fn string
+				if n, _ := fmt.Sscanf(path, "#%d.%s", &i, &fn); n == 2 {
+					if v, ok := fv.(aint); ok {
+						if out[i] == nil {
+							out[i] = map[string]int64{}
+						}
+						out[i][fn] = int64(v)
+					}
+				}
+			}
+			// rows the literal leaves out are zero rows: an array has all its indices
+			if at, ok := underlying(g.Type().(*types.Pointer).Elem()).(*types.Array); ok {
+				for i := int64(0); i < at.Len(); i++ {
+					if out[i] == nil {
+						out[i] = map[string]int64{}
+					}
+				}
+			}
+		}
+	}
+	// fields a row does not mention are zero
+	names := map[string]bool{}
+	for _, row := range out {
+		for n := range row {
+			names[n] = true
+		}
+	}
+	for _, row := range out {
+		for n := range names {
+			if _, ok := row[n]; !ok {
+				row[n] = 0
+			}
+		}
+	}
+	tableRowsMemo[g] = out
+	return out
 }
